@@ -5,7 +5,7 @@ usage: confirm_seed.py <seed-dir>...   (writes <seed-dir>/confirm.json)"""
 import json, os, shutil, subprocess, sys
 FEATURES = {'C16': 'rtr,crypto', 'C13': 'rtr,crypto', 'C12': '', 'C17': 'repository', 'C15': 'slurm,crypto',
             'C07': 'rtr,crypto', 'C08': 'rtr,crypto', 'C06': 'rtr,crypto', 'C03': 'repository,ca', 'C14': 'repository',
-            'C09': 'rrdp', 'C11': 'ca,softkeys', 'C01': 'repository,softkeys', 'C02': 'repository,softkeys', 'C10': 'ca,softkeys',
+            'C09': 'rrdp', 'C11': 'ca,softkeys', 'C01': 'repository,softkeys,ca', 'C02': 'repository,softkeys', 'C10': 'ca,softkeys',
             'C05': 'ca,softkeys', 'C04': 'ca,softkeys'}
 ALL = 'ca,crypto,repository,rrdp,rtr,slurm,xml,serde-support,softkeys'
 WT = '/tmp/wt_confirm'
